@@ -479,6 +479,49 @@ package dsl
 //@   invariant 4: allMatch ==> (forall k in 0..len(newMatches) :: newMatches[k]) && (forall k in 0..rangeindex+1 :: oldMatches[k])
 //@   ensures a_different_number_of_cases_is_a_change: lastResult("dsl.(*TypeCases).IsUnion") && len(oldType.Cases) != len(newType.Cases) ==> result != nil
 
+// Collections (docs/cpp/evolution.md: "changing a scalar type to a vector or array" is incompatible; the binary format
+// gives a fixed-length vector and a fixed array no length prefix, so a changed length or shape is a different layout).
+// Nothing changed is reported as no change; a change of the element type is carried inside the wrapper change.
+//@ spec func vecLen(t *GeneralizedType) *uint64 = t.Dimensionality.(*Vector).Length
+//@ func detectStreamChanges
+//@   property C06
+//@   requires newType != nil && oldType != nil
+//@   ensures non_stream_to_stream_is_incompatible: typeof(oldType.Dimensionality) != *Stream ==> typeof(result) == *TypeChangeIncompatible
+//@   ensures element_change_is_carried: typeof(oldType.Dimensionality) == *Stream && innerChange != nil ==> typeof(result) == *TypeChangeStreamTypeChanged && result.(*TypeChangeStreamTypeChanged).InnerChange == innerChange
+//@   ensures unchanged_is_no_change: typeof(oldType.Dimensionality) == *Stream && innerChange == nil ==> result == nil
+//@ func detectVectorChanges
+//@   property C06
+//@   requires newType != nil && oldType != nil && typeof(newType.Dimensionality) == *Vector && newType.Dimensionality.(*Vector) != nil
+//@   requires typeof(oldType.Dimensionality) == *Vector ==> oldType.Dimensionality.(*Vector) != nil
+//@   ensures non_vector_to_vector_is_incompatible: typeof(oldType.Dimensionality) != *Vector ==> typeof(result) == *TypeChangeIncompatible
+//@   ensures fixed_versus_variable_is_incompatible: typeof(oldType.Dimensionality) == *Vector && (vecLen(oldType) == nil) != (vecLen(newType) == nil) ==> typeof(result) == *TypeChangeIncompatible
+//@   ensures changed_length_is_incompatible: typeof(oldType.Dimensionality) == *Vector && vecLen(oldType) != nil && vecLen(newType) != nil && *vecLen(oldType) != *vecLen(newType) ==> typeof(result) == *TypeChangeIncompatible
+//@   ensures same_shape_carries_element_change: typeof(oldType.Dimensionality) == *Vector && ((vecLen(oldType) == nil && vecLen(newType) == nil) || (vecLen(oldType) != nil && vecLen(newType) != nil && *vecLen(oldType) == *vecLen(newType))) ==> (innerChange == nil ==> result == nil) && (innerChange != nil ==> typeof(result) == *TypeChangeVectorTypeChanged && result.(*TypeChangeVectorTypeChanged).InnerChange == innerChange)
+//@ spec func arrDims(t *GeneralizedType) *ArrayDimensions = t.Dimensionality.(*Array).Dimensions
+//@ spec func sameDim(a *ArrayDimension, b *ArrayDimension) bool = (a.Length == nil) == (b.Length == nil) && (a.Length != nil ==> *a.Length == *b.Length)
+//@ func detectArrayChanges
+//@   property C06
+//@   requires newType != nil && oldType != nil && typeof(newType.Dimensionality) == *Array && newType.Dimensionality.(*Array) != nil
+//@   requires typeof(oldType.Dimensionality) == *Array ==> oldType.Dimensionality.(*Array) != nil
+//@   invariant 0: forall k in 0..rangeindex+1 :: sameDim((*arrDims(newType))[k], (*arrDims(oldType))[k])
+//@   ensures non_array_to_array_is_incompatible: typeof(oldType.Dimensionality) != *Array ==> typeof(result) == *TypeChangeIncompatible
+//@   ensures dimensions_added_or_removed_is_incompatible: typeof(oldType.Dimensionality) == *Array && (arrDims(oldType) == nil) != (arrDims(newType) == nil) ==> typeof(result) == *TypeChangeIncompatible
+//@   ensures changed_rank_is_incompatible: typeof(oldType.Dimensionality) == *Array && arrDims(oldType) != nil && arrDims(newType) != nil && len(*arrDims(oldType)) != len(*arrDims(newType)) ==> typeof(result) == *TypeChangeIncompatible
+//@   ensures changed_extent_is_incompatible: typeof(oldType.Dimensionality) == *Array && arrDims(oldType) != nil && arrDims(newType) != nil && len(*arrDims(oldType)) == len(*arrDims(newType)) && (exists k in 0..len(*arrDims(newType)) :: !sameDim((*arrDims(newType))[k], (*arrDims(oldType))[k])) ==> typeof(result) == *TypeChangeIncompatible
+//@   ensures changed_element_is_incompatible: innerChange != nil ==> typeof(result) == *TypeChangeIncompatible
+//@   ensures unchanged_is_no_change: typeof(oldType.Dimensionality) == *Array && innerChange == nil && ((arrDims(oldType) == nil && arrDims(newType) == nil) || (arrDims(oldType) != nil && arrDims(newType) != nil && len(*arrDims(oldType)) == len(*arrDims(newType)) && (forall k in 0..len(*arrDims(newType)) :: sameDim((*arrDims(newType))[k], (*arrDims(oldType))[k])))) ==> result == nil
+//@ func detectMapChanges
+//@   property C06
+//@   requires newType != nil && oldType != nil && typeof(newType.Dimensionality) == *Map && newType.Dimensionality.(*Map) != nil
+//@   requires typeof(oldType.Dimensionality) == *Map ==> oldType.Dimensionality.(*Map) != nil
+//@   ensures non_map_to_map_is_incompatible: typeof(oldType.Dimensionality) != *Map ==> typeof(result) == *TypeChangeIncompatible
+//@   ensures changed_key_or_value_is_incompatible: typeof(oldType.Dimensionality) == *Map && (lastResult(compareTypes) != nil || innerChange != nil) ==> typeof(result) == *TypeChangeIncompatible
+//@   ensures unchanged_is_no_change: typeof(oldType.Dimensionality) == *Map && lastResult(compareTypes) == nil && innerChange == nil ==> result == nil
+//@ func detectOptionalChanges
+//@   property C06
+//@   requires newType != nil && oldType != nil
+//@   ensures optional_element_change_is_carried: lastResult("dsl.(*TypeCases).IsOptional") && called(compareTypes) ==> (lastResult(compareTypes) == nil ==> result == nil) && (lastResult(compareTypes) != nil ==> typeof(result) == *TypeChangeOptionalTypeChanged && result.(*TypeChangeOptionalTypeChanged).InnerChange == lastResult(compareTypes))
+
 // Type references: an unknown name, a reference to a protocol and a wrong number of type arguments are errors of
 // resolveType; both passes that resolve references report its error at the reference and descend into type arguments.
 //@ func resolveType
@@ -511,10 +554,23 @@ package dsl
 //@   ensures non_definitions_descend: !(typeof(node) == TypeDefinition) ==> called("dsl.(Visitor).VisitChildren")
 //@ func validateRecordFieldNames$1
 //@   property C09
+//@   requires errorSink != nil
 //@   ensures non_records_descend: typeof(node) != *RecordDefinition ==> called("dsl.(Visitor).VisitChildren")
+// every field and computed field: a badly-cased name is an error; a name already used on the record is an error;
+// names accumulate over fields and computed fields (so a computed field cannot repeat a field either)
+//@   invariant 0: forall k in 0..rangeindex+1 :: (record.Fields[k].Name in fields)
+//@   iteration 0: badly_cased_field_is_an_error: !lastResult("regexp.(*Regexp).MatchString") ==> len(errorSink.Errors) > old(len(errorSink.Errors))
+//@   iteration 0: repeated_field_name_is_an_error: old(field.Name in fields) ==> len(errorSink.Errors) > old(len(errorSink.Errors))
+//@   invariant 1: (forall k in 0..len(record.Fields) :: (record.Fields[k].Name in fields)) && (forall k in 0..rangeindex+1 :: (record.ComputedFields[k].Name in fields))
+//@   iteration 1: badly_cased_computed_field_is_an_error: !lastResult("regexp.(*Regexp).MatchString") ==> len(errorSink.Errors) > old(len(errorSink.Errors))
+//@   iteration 1: repeated_computed_field_name_is_an_error: old(field.Name in fields) ==> len(errorSink.Errors) > old(len(errorSink.Errors))
 //@ func validateProtocolSequenceNames$1
 //@   property C09
+//@   requires errorSink != nil
 //@   ensures non_protocols_descend: typeof(node) != *ProtocolDefinition ==> called("dsl.(Visitor).VisitChildren")
+//@   invariant 0: forall k in 0..rangeindex+1 :: (protocol.Sequence[k].Name in steps)
+//@   iteration 0: badly_cased_step_is_an_error: !lastResult("regexp.(*Regexp).MatchString") ==> len(errorSink.Errors) > old(len(errorSink.Errors))
+//@   iteration 0: repeated_step_name_is_an_error: old(step.Name in steps) ==> len(errorSink.Errors) > old(len(errorSink.Errors))
 //@ func validateEnums$1
 //@   property C09
 //@   ensures non_enums_descend: typeof(node) != *EnumDefinition ==> called("dsl.(Visitor).VisitChildren")
